@@ -123,8 +123,49 @@ func (w *World) VerifyFunc(key string) (vc *VC, err error) {
 			vc.assume(True, t)
 		}
 	}
-	// global invariants are assumed at entry
+	// global invariants are assumed at entry -- except in the package
+	// initialisers, where the one that establishes an invariant starts from
+	// the value of the composite literal and has to prove it
+	var establish []*GlobalInv
 	for _, gi := range w.cons.GInvs {
+		if gi.Global != "" {
+			g := w.ginvGlobal(gi)
+			if g == nil {
+				vc.errorf("%s:%d: globalinv: no package-level variable %s", gi.File, gi.Line, gi.Global)
+				continue
+			}
+			if fc != nil && fc.Pkg == gi.Pkg && strings.Contains(" "+fc.Opts["establishes"]+" ", " "+gi.Global+" ") {
+				facts, ok := w.literalFacts(g, fr.entry)
+				if !ok {
+					vc.errorf("%s:%d: globalinv: %s is not initialised by a composite literal of constants", gi.File, gi.Line, gi.Global)
+					continue
+				}
+				for _, other := range w.explicitInits(gi.Pkg) {
+					if other != fn && mentionsGlobal(other, g) {
+						vc.errorf("%s:%d: globalinv: %s is also used by %s", gi.File, gi.Line, gi.Global, other.Name())
+					}
+				}
+				if ok, why := w.globalStable(g); !ok {
+					vc.errorf("%s:%d: globalinv: %s is not stable: %s", gi.File, gi.Line, gi.Global, why)
+				}
+				for _, f := range facts {
+					vc.assume(True, f)
+				}
+				vc.note("global %s: initial value taken from its composite literal in the package initialiser", gi.Global)
+				establish = append(establish, gi)
+				continue
+			}
+			if isInitFunc(fn) {
+				continue
+			}
+			if w.establisher(gi) == "" {
+				vc.note("unchecked assumption: globalinv %s (no function establishes it)", gi.Label)
+			} else if ok, _ := w.globalStable(g); !ok {
+				continue // reported where it is established
+			}
+		} else {
+			vc.note("unchecked assumption: globalinv %s", gi.Src)
+		}
 		env := &Env{w: w, pkg: gi.Pkg, vars: map[string]TV{}, used: vc.used, heap: fr.entry.get, old: fr.entry.get}
 		env.lookup = w.globalLookup(fr.entry, gi.Pkg)
 		t, e := env.CompileBool(gi.E)
@@ -264,6 +305,22 @@ func (w *World) VerifyFunc(key string) (vc *VC, err error) {
 						}
 					}
 				}
+			}
+		}
+		for _, gi := range establish {
+			genv := &Env{w: w, pkg: gi.Pkg, vars: map[string]TV{}, used: vc.used, heap: out.heap.get, old: fr.entry.get}
+			genv.lookup = w.globalLookup(out.heap, gi.Pkg)
+			t, e := genv.CompileBool(gi.E)
+			if e != nil {
+				vc.errorf("%s:%d: globalinv: %v", gi.File, gi.Line, e)
+				continue
+			}
+			ps := gi.Props
+			if len(ps) == 0 {
+				ps = fr.props()
+			}
+			if o := vc.oblige("post", fmt.Sprintf("globalinv/%s/%s", fname, gi.Label), ps, out.reach, t, fr.pos(fn.Pos())); o != nil {
+				o.Src = gi.Src
 			}
 		}
 		if len(fc.Ensures) > 0 {
@@ -669,6 +726,24 @@ func (w *World) globalWritten(g *ssa.Global) bool {
 func (w *World) isAxiom(label string) bool {
 	for _, l := range w.cons.Lemmas {
 		if (l.Label == label || strings.HasSuffix(l.Label, ":"+label)) && l.Axiom {
+			return true
+		}
+	}
+	return false
+}
+
+func mentionsGlobal(fn *ssa.Function, g *ssa.Global) bool {
+	for _, b := range fn.Blocks {
+		for _, ins := range b.Instrs {
+			for _, op := range ins.Operands(nil) {
+				if *op == ssa.Value(g) {
+					return true
+				}
+			}
+		}
+	}
+	for _, a := range fn.AnonFuncs {
+		if mentionsGlobal(a, g) {
 			return true
 		}
 	}
